@@ -100,8 +100,8 @@ func Configs(thorough bool) []Config {
 		}
 	}
 	for _, sc := range []string{"two-ns", "same-ns"} {
-		add(sc, 1, 3, true)
-		add(sc, 0, 2, true)
+		add(sc, 1, 3, false)
+		add(sc, 0, 2, false)
 	}
 	for i := range out {
 		c := &out[i]
@@ -114,14 +114,67 @@ func Configs(thorough bool) []Config {
 }
 
 // MaxBound is the preemption bound of a tier for a config.
+//
+//	quick:    1 everywhere; 2 for the small variant (A=0s,B=2s) in the two-namespace scenario at offsets 0 and 4
+//	thorough: A=1s,B=3s: 2 at the start offsets {A: 0,3,4,6; B: 1} (two namespaces) / {A: 0,3; B: 1} (one namespace)
+//	          — A starts with B / at B's Ingress delete / inside B's last wait / at B's canary-Service delete —
+//	          and 1 at the remaining offsets;
+//	          A=0s,B=2s (the small variant): 2 at every offset, 3 in the two-namespace scenario at offsets 0 and 4;
+//	          retry-at-every-tick variant of the small variant: 1
 func MaxBound(thorough bool, c Config) int {
-	if !thorough {
+	in := func(v int, set ...int) bool {
+		for _, s := range set {
+			if v == s {
+				return true
+			}
+		}
+		return false
+	}
+	switch {
+	case !thorough && c.GraceA == 0 && c.Scenario == "two-ns" && in(c.OffA, 0, 4):
+		return 2
+	case !thorough || c.Eager:
 		return 1
+	case c.GraceA == 0:
+		if c.Scenario == "two-ns" && in(c.OffA, 0, 4) {
+			return 3
+		}
+		return 2
+	case c.OffB == 1, c.OffB == 0 && c.Scenario == "two-ns" && in(c.OffA, 0, 3, 4, 6), c.OffB == 0 && c.Scenario == "same-ns" && in(c.OffA, 0, 3):
+		return 2
 	}
-	if c.GraceA == 0 && !c.Eager {
-		return 3 // the small variant
+	return 1
+}
+
+// Job is one worker process: one config, or one shard of its schedule tree.
+type Job struct {
+	Cfg, Bound, Shard, Shards int
+}
+
+// Jobs lists the worker processes of a tier, most expensive first.
+func Jobs(thorough bool) []Job {
+	var jobs []Job
+	for i, c := range Configs(thorough) {
+		b := MaxBound(thorough, c)
+		if v := os.Getenv("VERIF_C19_BOUND"); v != "" {
+			fmt.Sscanf(v, "%d", &b)
+		}
+		n := 1
+		switch {
+		case b >= 3:
+			n = 6
+		case b == 2:
+			n = 3
+		}
+		if v := os.Getenv("VERIF_C19_SHARDS"); v != "" {
+			fmt.Sscanf(v, "%d", &n)
+		}
+		for sh := 0; sh < n; sh++ {
+			jobs = append(jobs, Job{Cfg: i, Bound: b, Shard: sh, Shards: n})
+		}
 	}
-	return 2
+	sort.SliceStable(jobs, func(a, b int) bool { return jobs[a].Bound > jobs[b].Bound })
+	return jobs
 }
 
 // ---------------------------------------------------------------- virtual clock
@@ -340,8 +393,8 @@ func newTRContext(ro rolloutSpec, lut *metav1.Time) *trafficrouting.TrafficRouti
 	}
 }
 
-func waitUntil(label string, ready func() bool) {
-	if sched.Block(label, ready) {
+func waitUntil(label string, ready, early func() bool) {
+	if sched.BlockSoft(label, ready, early) {
 		return
 	}
 	for !ready() { // free-running (race stage): really wait for the clock goroutine
@@ -359,7 +412,7 @@ func (w *world) workerBody(ro rolloutSpec, cl client.Client) func() {
 	return func() {
 		defer atomic.AddInt32(&w.finished, 1)
 		if ro.Off > 0 {
-			waitUntil("wait-clock:start", func() bool { return nowS() >= int64(ro.Off) })
+			waitUntil("wait-clock:start", func() bool { return nowS() >= int64(ro.Off) }, nil)
 		}
 		m := trafficrouting.NewTrafficRoutingManager(cl)
 		var lut *metav1.Time
@@ -382,7 +435,10 @@ func (w *world) workerBody(ro rolloutSpec, cl client.Client) func() {
 			if d := int64((c.RecheckDuration + time.Second - 1) / time.Second); !w.cfg.Eager && err == nil && nowS()+d > wake {
 				wake = nowS() + d
 			}
-			waitUntil("wait-clock:requeue", func() bool { return nowS() >= wake })
+			// requeue at `wake`; any other trigger may reconcile the Rollout earlier (as soon as the clock moved):
+			// that early wake-up is explored too, at the cost of one preemption
+			parked := nowS()
+			waitUntil("wait-clock:requeue", func() bool { return nowS() >= wake }, func() bool { return nowS() > parked })
 		}
 		ev("gave-up")
 	}
@@ -749,17 +805,18 @@ func witnesses(m map[string][]int) [][]int {
 	return out
 }
 
-// ---------------------------------------------------------------- worker (one config per process)
+// ---------------------------------------------------------------- worker (one job per process)
 
 // WorkerResult is what a worker process hands to the parent.
 type WorkerResult struct {
 	Cfg            Config                   `json:"cfg"`
+	Job            Job                      `json:"job"`
 	BoundCompleted int                      `json:"bound_completed"`
-	ByBound        map[string]int64         `json:"schedules_by_bound"` // new schedules at exactly this cost
+	ByBound        map[string]int64         `json:"schedules_by_bound"` // schedules of exactly this cost
 	Schedules      int64                    `json:"schedules"`          // distinct schedules at the last completed bound
 	Executions     int64                    `json:"executions"`         // incl. re-execution of lower bounds and solo references
 	Points         int64                    `json:"points"`
-	States         int                      `json:"states"`
+	StateKeys      []string                 `json:"state_keys"`
 	ImplCalls      int64                    `json:"impl_calls"`
 	BothWrote      int64                    `json:"both_wrote"`
 	Interleavings  map[string]int64         `json:"interleavings"`
@@ -772,22 +829,29 @@ type WorkerResult struct {
 	Error          string                   `json:"error,omitempty"`
 }
 
-// soloBound is the preemption bound of the solo reference systems (2 threads: cheap). The reference is additionally
-// checked for tightness (solo minimum of every gap == configured grace seconds), so a larger bound could not lower it.
-const soloBound = 2
+// soloBoundFor is the preemption bound of the solo reference systems (2 threads: cheap). The reference is
+// additionally checked for tightness (solo minimum of every gap == configured grace seconds; a vacuity warning
+// otherwise), so a larger bound could not lower it.
+func soloBoundFor(maxBound int) int {
+	if maxBound >= 2 {
+		return 2
+	}
+	return 1
+}
 
-// RunConfig explores one config for bounds 0..maxBound (own process: the grace registry and the clock are global).
-func RunConfig(cfg Config, maxBound int, deadline time.Time) *WorkerResult {
+// RunJob explores one config (or one shard of it) for bounds 0..job.Bound. Own process: the grace registry, the
+// virtual clock and the shim hooks are process-global.
+func RunJob(cfg Config, job Job, deadline time.Time) *WorkerResult {
 	t0 := time.VerifRealNow()
 	rep := lib.NewReport("C19")
-	res := &WorkerResult{Cfg: cfg, BoundCompleted: -1, ByBound: map[string]int64{}, Interleavings: map[string]int64{}, SoloRefs: map[string]*Ref{}}
+	res := &WorkerResult{Cfg: cfg, Job: job, BoundCompleted: -1, ByBound: map[string]int64{}, Interleavings: map[string]int64{}, SoloRefs: map[string]*Ref{}}
 	refs := map[string]*Ref{}
-	var soloExec, soloPts int64
+	var soloExec int64
 	for _, ro := range cfg.rollouts() {
-		ref := soloRef(cfg, ro.Thread, soloBound, nil, rep)
+		ref := soloRef(cfg, ro.Thread, soloBoundFor(job.Bound), nil, rep)
 		refs[ro.Thread], res.SoloRefs[ro.Thread] = ref, ref
 		soloExec += ref.Scheds
-		if want := int64(ro.Grace); ref.Problem == "" {
+		if want := int64(ro.Grace); ref.Problem == "" && job.Shard == 0 {
 			for _, g := range gapNames {
 				if ref.MinGap[g] != want {
 					rep.Warn(fmt.Sprintf("config %s: solo minimum of gap %s for Rollout %s is %ds, configured grace is %ds (reference not tight)", cfg.ID, g, ro.Thread, ref.MinGap[g], want))
@@ -795,11 +859,9 @@ func RunConfig(cfg Config, maxBound int, deadline time.Time) *WorkerResult {
 			}
 		}
 	}
-	_ = soloPts
 	timed := map[string]struct{}{}
-	var last *sched.Explorer
-	var states int
-	for b := 0; b <= maxBound; b++ {
+	var states map[uint64]struct{}
+	for b := 0; b <= job.Bound; b++ {
 		var both int64
 		inter := map[string]int64{}
 		var samples []interface{}
@@ -815,26 +877,28 @@ func RunConfig(cfg Config, maxBound int, deadline time.Time) *WorkerResult {
 			}
 			inter[s.w.interleaving()]++
 			timed[lib.J(s.w.log)] = struct{}{}
-			if x.Preemptions == b && len(samples) < 2 {
+			if x.Preemptions == b && len(samples) < 1 && job.Shard == 0 {
 				samples = append(samples, map[string]interface{}{"config": cfg.ID, "preemptions": x.Preemptions, "points": len(x.Points), "schedule": s.trace(x, false), "writes": s.w.log})
 			}
 		}
-		s.ex.Bound = b
+		s.ex.Bound, s.ex.Shard, s.ex.Shards = b, job.Shard, job.Shards
 		s.ex.Stop = func() bool { return time.VerifRealNow().After(deadline) }
 		s.ex.Explore()
 		res.Executions += s.ex.Executions
 		res.Points += s.ex.PointsExecuted
 		if s.ex.Stopped {
-			rep.NotExhaustive(fmt.Sprintf("config %s: time budget ended inside preemption bound %d after %d schedules (bound %d is complete)", cfg.ID, b, s.ex.Executions, b-1))
+			rep.NotExhaustive(fmt.Sprintf("config %s shard %d/%d: time budget ended inside preemption bound %d after %d schedules (bound %d is complete)", cfg.ID, job.Shard, job.Shards, b, s.ex.Executions, b-1))
 			break
 		}
 		res.BoundCompleted, res.Schedules, res.BothWrote, res.Interleavings = b, s.ex.Executions, both, inter
 		res.ByBound[fmt.Sprint(b)] = s.ex.ByCost[b]
 		res.Samples = append(res.Samples, samples...)
-		last, states = s.ex, len(s.states)
+		states = s.states
 	}
-	_ = last
-	res.States, res.TimedOutcomes = states, len(timed)
+	for k := range states {
+		res.StateKeys = append(res.StateKeys, strconv.FormatUint(k, 36))
+	}
+	res.TimedOutcomes = len(timed)
 	res.Executions += soloExec
 	res.ImplCalls = atomic.LoadInt64(&implCalls)
 	res.Violations, res.Caps = rep.RawViolations(), rep.Caps()
@@ -845,36 +909,32 @@ func RunConfig(cfg Config, maxBound int, deadline time.Time) *WorkerResult {
 	return res
 }
 
-// Worker is the entry point of `schedmc --worker C19 <config index> <out.json>`.
+// Worker is the entry point of `schedmc --worker C19 <job index> <out.json>`.
 func Worker(idx int, out string) {
 	// one thread runs at a time anyway; a single P makes every hand-off a cheap same-P goroutine switch, and the
 	// parent runs one worker process per core instead
 	runtime.GOMAXPROCS(1)
 	thorough := os.Getenv("VERIF_TIER") == "thorough"
-	cfgs := Configs(thorough)
-	if idx < 0 || idx >= len(cfgs) {
-		fmt.Println("HARNESS-ERROR bad config index")
+	cfgs, jobs := Configs(thorough), Jobs(thorough)
+	if idx < 0 || idx >= len(jobs) {
+		fmt.Println("HARNESS-ERROR bad job index")
 		os.Exit(2)
 	}
 	budget := 45 * time.Second
 	if thorough {
-		budget = 13 * time.Minute
+		budget = 12 * time.Minute
 	}
 	if v := os.Getenv("VERIF_C19_BUDGET_S"); v != "" {
 		var f float64
 		fmt.Sscanf(v, "%g", &f)
 		budget = time.Duration(f * float64(time.Second))
 	}
-	mb := MaxBound(thorough, cfgs[idx])
-	if v := os.Getenv("VERIF_C19_BOUND"); v != "" {
-		fmt.Sscanf(v, "%d", &mb)
-	}
 	if pf := os.Getenv("VERIF_C19_PROF"); pf != "" {
 		f, _ := os.Create(pf)
 		_ = pprof.StartCPUProfile(f)
 		defer pprof.StopCPUProfile()
 	}
-	res := RunConfig(cfgs[idx], mb, time.VerifRealNow().Add(budget))
+	res := RunJob(cfgs[jobs[idx].Cfg], jobs[idx], time.VerifRealNow().Add(budget))
 	b, _ := json.Marshal(res)
 	if err := os.WriteFile(out, b, 0o644); err != nil {
 		fmt.Println("HARNESS-ERROR", err)
@@ -886,33 +946,31 @@ func Worker(idx int, out string) {
 
 func Run(r *lib.Report) {
 	thorough := r.Thorough()
-	cfgs := Configs(thorough)
-	r.Rule = "E2 (CHESS-style): for every closed system = scenario {two namespaces sharing the names echo/echo-canary; one namespace with names demo/demo-x, echo/echo-x} x grace variant {A=1s,B=3s; A=0s,B=2s} x every start offset of one Rollout inside the other's finalising, EVERY schedule of the threads {worker A, worker B, clock} with at most k preemptions (k = 0,1,.. up to the tier's bound; early clock ticks count as preemptions) is executed on the real trafficrouting.Manager.FinalisingTrafficRouting + the real process-global grace registry (sync shim: every Mutex/RWMutex operation and every API call is a scheduling point); depth-first over choice prefixes, no sampling, no state pruning. Non-trivial = schedules in which both Rollouts wrote to the store."
+	cfgs, jobs := Configs(thorough), Jobs(thorough)
+	r.Rule = "E2 (CHESS-style): for every closed system = scenario {two namespaces sharing the names echo/echo-canary; one namespace with names demo/demo-x, echo/echo-x} x grace variant {A=1s,B=3s; A=0s,B=2s} x every start offset of one Rollout inside the other's finalising, EVERY schedule of the threads {worker A, worker B, clock} with at most k preemptions (k = 0,1,.. up to the bound listed per config) is executed on the real trafficrouting.Manager.FinalisingTrafficRouting + the real process-global grace registry (sync shim: every Mutex/RWMutex operation and every API call is a scheduling point); depth-first over choice prefixes, no sampling, no state pruning. A preemption = switching away from a still-enabled running thread, an early clock tick (while a worker could run), or an early reconcile (before the requeue time). Non-trivial = schedules in which both Rollouts wrote to the store."
 	r.Assumptions = []string{
 		"Lengthening of a grace wait by another Rollout is NOT flagged: with a shared grace key `Expect` only overwrites the record time, which changes neither the final state nor any stated safety property (DESIGN.md §4 C19); only a gap SHORTER than the minimum over all solo schedules is a violation (the configured gracePeriodSeconds is observable behaviour).",
 		"Gap oracle events per Rollout: stable Service un-pin -> canary Ingress delete, canary Ingress delete -> canary Service delete, canary Service delete -> FinalisingTrafficRouting returning done (the last one stands for the writes the controller issues after finalising).",
-		"Solo reference = the same Rollout alone with the same start offset and clock, every solo schedule up to preemption bound 2 (its gap minima are checked to equal the configured grace seconds, so a larger bound could not lower them); concurrent state / write sequence must be a member of the solo sets (they are singletons on the current code).",
-		"Time advances only by explicit 1 s steps of the clock thread. The clock is an environment thread: it steps for free only when no worker can run (maximal progress); a step while a worker is enabled costs one preemption. Workers that got `retry` block on the clock until now+RecheckDuration (what rollout_canary.go requeues with), at least one tick; thorough adds the variant that retries at every tick.",
+		"Solo reference = the same Rollout alone with the same start offset and clock, every solo schedule up to preemption bound min(k,2) (its gap minima are checked to equal the configured grace seconds — vacuity warning otherwise — so a larger bound could not lower them); concurrent state / write sequence must be a member of the solo sets (they are singletons on the current code).",
+		"Time advances only by explicit 1 s steps of the clock thread. The clock is an environment thread: it steps for free only when no worker can run (maximal progress); a step while a worker is enabled costs one preemption.",
+		"A worker whose call returned `retry` blocks on the clock until now+RecheckDuration (what rollout_canary.go requeues with, at least one tick). Because any other event may trigger a reconcile earlier, an early wake-up (any time after the clock moved) is explored as well, at the cost of one preemption; thorough adds the variant in which every tick wakes every waiting worker for free.",
+		"Start offsets (the virtual second at which a Rollout's finalising begins) are part of the closed system and enumerated exhaustively over the other Rollout's solo duration; they are not schedule choices.",
 		"In the same-namespace scenario the two Rollouts use distinct network objects with similar names (echo / echo-x): two Rollouts on one and the same Service legitimately share state and are outside the property.",
 		"Store = controller-runtime fake client (one instance shared by both workers); objects carry explicit distinct UIDs. Only pkg/util/grace and pkg/util/expectation have their mutexes turned into scheduling points; data races are invisible to a cooperative scheduler (auxiliary -race stage, sampled, see coverage.aux_race_stage).",
 	}
 	r.TrustedBase = []string{"harness/sched (scheduler)", "harness/shim/vsync.go.txt (sync shim)", "controller-runtime fake client", "std time overlay (virtual clock)"}
 	outDir := "/verif/.cache/e2/C19"
 	_ = os.MkdirAll(outDir, 0o755)
-	results := make([]*WorkerResult, len(cfgs))
-	par := runtime.NumCPU() / 2
-	if par < 1 {
-		par = 1
-	}
-	sem := make(chan struct{}, par)
+	results := make([]*WorkerResult, len(jobs))
+	sem := make(chan struct{}, runtime.NumCPU()) // workers are single-threaded (GOMAXPROCS=1)
 	var wg sync.WaitGroup
 	var mu sync.Mutex
 	harnessErr := false
-	for i := range cfgs {
+	for i := range jobs {
 		wg.Add(1)
+		sem <- struct{}{} // acquired here, so the launch order is the cost order of Jobs
 		go func(i int) {
 			defer wg.Done()
-			sem <- struct{}{}
 			defer func() { <-sem }()
 			out := fmt.Sprintf("%s/%03d.json", outDir, i)
 			_ = os.Remove(out)
@@ -931,7 +989,7 @@ func Run(r *lib.Report) {
 			defer mu.Unlock()
 			if err != nil || rerr != nil || res.Error != "" {
 				harnessErr = true
-				fmt.Printf("HARNESS-ERROR C19 worker %d (%s): %v %v %s (log %s/%03d.log)\n", i, cfgs[i].ID, err, rerr, res.Error, outDir, i)
+				fmt.Printf("HARNESS-ERROR C19 worker %d (%s): %v %v %s (log %s/%03d.log)\n", i, cfgs[jobs[i].Cfg].ID, err, rerr, res.Error, outDir, i)
 				return
 			}
 			results[i] = &res
@@ -941,29 +999,59 @@ func Run(r *lib.Report) {
 	if harnessErr {
 		os.Exit(2)
 	}
+	// merge the shards of every config
+	type agg struct {
+		byBound       map[string]int64
+		inter         map[string]int64
+		states        map[string]struct{}
+		schedules     int64
+		completed     int
+		bound, shards int
+		wall, cpu     float64
+		solo          map[string]*Ref
+	}
+	aggs := make([]*agg, len(cfgs))
 	byBound := map[string]int64{}
+	completedAt := map[string]int{}
 	inter := map[string]struct{}{}
-	var table []map[string]interface{}
 	var execs, timed int64
-	minCompleted := 99
 	for _, res := range results {
-		r.AddGraph(int64(res.States), res.Points, res.ImplCalls)
-		r.AddEval(res.Schedules)
-		execs += res.Executions
-		timed += int64(res.TimedOutcomes)
-		if res.BoundCompleted < minCompleted {
-			minCompleted = res.BoundCompleted
+		a := aggs[res.Job.Cfg]
+		if a == nil {
+			a = &agg{byBound: map[string]int64{}, inter: map[string]int64{}, states: map[string]struct{}{}, completed: 99, bound: res.Job.Bound, shards: res.Job.Shards}
+			aggs[res.Job.Cfg] = a
+		}
+		if res.BoundCompleted < a.completed {
+			a.completed = res.BoundCompleted
+		}
+		if res.Job.Shard == 0 {
+			a.solo = res.SoloRefs
+			for _, s := range res.Samples {
+				if res.Job.Cfg%5 == 0 {
+					r.Sample(s)
+				}
+			}
+		}
+		a.schedules += res.Schedules
+		a.cpu += res.WallS
+		if res.WallS > a.wall {
+			a.wall = res.WallS
 		}
 		for k, v := range res.ByBound {
+			a.byBound[k] += v
 			byBound[k] += v
 		}
 		for k, n := range res.Interleavings {
-			inter[k] = struct{}{}
-			for j := int64(0); j < n && j < 1; j++ {
-				r.Outcome(res.Cfg.Scenario + ": " + k)
-			}
+			a.inter[k] += n
 		}
-		r.NontrivialN(res.Cfg.ID, int(res.BothWrote))
+		for _, k := range res.StateKeys {
+			a.states[k] = struct{}{}
+		}
+		r.AddGraph(0, res.Points, res.ImplCalls)
+		r.AddEval(res.Schedules)
+		execs += res.Executions
+		timed += int64(res.TimedOutcomes)
+		r.NontrivialN(fmt.Sprintf("%s#%d", res.Cfg.ID, res.Job.Shard), int(res.BothWrote))
 		for _, c := range res.Caps {
 			if strings.HasPrefix(c, "WARN ") {
 				r.Warn(strings.TrimPrefix(c, "WARN "))
@@ -982,26 +1070,29 @@ func Run(r *lib.Report) {
 				r.Violate(sig, det, v["replay"])
 			}
 		}
-		solo := map[string]interface{}{}
-		for k, ref := range res.SoloRefs {
-			solo[k] = map[string]interface{}{"schedules": ref.Scheds, "bound": ref.Bound, "min_gap_s": ref.MinGap, "distinct_states": len(ref.States), "distinct_write_seqs": len(ref.Writes)}
-		}
-		table = append(table, map[string]interface{}{"config": res.Cfg.ID, "bound_completed": res.BoundCompleted, "schedules_by_bound": res.ByBound,
-			"schedules": res.Schedules, "distinct_write_interleavings": len(res.Interleavings), "states": res.States, "wall_s": res.WallS, "solo": solo})
 	}
-	for i, res := range results {
-		if i%7 == 0 {
-			for _, s := range res.Samples {
-				r.Sample(s)
-			}
+	var table []map[string]interface{}
+	for i, a := range aggs {
+		r.AddGraph(int64(len(a.states)), 0, 0)
+		for k := range a.inter {
+			inter[k] = struct{}{}
+			r.Outcome(cfgs[i].Scenario + ": " + k)
 		}
+		completedAt[fmt.Sprint(a.completed)]++
+		solo := map[string]interface{}{}
+		for k, ref := range a.solo {
+			solo[k] = map[string]interface{}{"schedules": ref.Scheds, "bound": ref.Bound, "min_gap_s": ref.MinGap}
+		}
+		table = append(table, map[string]interface{}{"config": cfgs[i].ID, "bound": a.bound, "bound_completed": a.completed, "schedules_by_bound": a.byBound, "schedules": a.schedules,
+			"distinct_write_interleavings": len(a.inter), "states": len(a.states), "shards": a.shards, "wall_s": a.wall, "cpu_s": a.cpu, "solo": solo})
 	}
 	r.Extra["configs"] = len(cfgs)
+	r.Extra["worker_processes"] = len(jobs)
 	r.Extra["schedules_per_preemption_bound"] = byBound
-	r.Extra["bound_completed_all_configs"] = minCompleted
+	r.Extra["configs_by_bound_completed"] = completedAt
 	r.Extra["executions_incl_reexecution_and_solo_references"] = execs
 	r.Extra["distinct_write_interleavings"] = len(inter)
-	r.Extra["distinct_timed_write_logs"] = timed
+	r.Extra["distinct_timed_write_logs_summed_over_jobs"] = timed
 	r.Extra["per_config"] = table
 	r.Extra["horizon_points_per_execution"] = 600
 	r.Extra["aux_race_stage"] = raceStageSummary()
